@@ -6,6 +6,8 @@
 From PV Require Import Base.Tac Base.ListX Obj.ObjDefs.
 
 (* ---- list bookkeeping ---- *)
+Ltac len := repeat (progress (rewrite ?app_length, ?map_length, ?rev_length; cbn [length])); lia.
+Ltac nrm := repeat (progress (rewrite <- ?app_assoc; cbn [app])).
 Lemma split_len {A} (l : list A) a b : length l = (a + b)%nat ->
   exists l1 l2, l = l1 ++ l2 /\ length l1 = a /\ length l2 = b.
 Proof.
@@ -22,10 +24,8 @@ Qed.
 
 Lemma upd_mid {A} (a b : list A) x y : upd (a ++ x :: b) (length a) y = a ++ y :: b.
 Proof.
-  unfold upd. rewrite firstn_app, firstn_all, Nat.sub_diag. cbn [firstn]. rewrite app_nil_r.
-  f_equal. f_equal.
-  replace (S (length a)) with (length a + 1)%nat by lia.
-  rewrite <- skipn_skipn. rewrite skipn_app, skipn_all, Nat.sub_diag. reflexivity.
+  unfold upd. induction a as [|a0 a IH]; [reflexivity|].
+  cbn [length app firstn skipn]. f_equal. exact IH.
 Qed.
 
 Lemma scan_some_none l r : scan (map Some l ++ None :: r) = l.
@@ -40,8 +40,8 @@ Lemma count_loop_spec k : forall nc nd d,
   ((nc + length (ctors_of k))%nat, (nd + length (dtors_of k))%nat, (d + depth_of k)%nat).
 Proof.
   induction k as [oc od|oc od p IH]; intros nc nd d; cbn [count_loop c_ctor c_dtor ctors_of dtors_of depth_of].
-  - destruct oc, od; cbn [opt_list app length]; repeat f_equal; lia.
-  - rewrite IH. destruct oc, od; cbn [opt_list app length]; repeat f_equal; lia.
+  - destruct oc, od; cbn [opt_list app length]; repeat (match goal with |- (_, _) = (_, _) => apply f_equal2 end); lia.
+  - rewrite IH. destruct oc, od; cbn [opt_list app length]; repeat (match goal with |- (_, _) = (_, _) => apply f_equal2 end); lia.
 Qed.
 
 (* ---- one iteration of the second loop ---- *)
@@ -67,8 +67,8 @@ Proof.
       by (rewrite app_length; cbn [length]; lia).
     rewrite upd_mid.
     f_equal.
-    + rewrite <- !app_assoc. cbn [app]. rewrite <- !app_assoc. reflexivity.
-    + rewrite !app_length. cbn [length]. rewrite app_length. cbn [length]. lia.
+    + nrm. reflexivity.
+    + len.
   - destruct (split_last J1 a HJ) as (J1' & j & -> & HJ').
     exists J1', U. repeat split; [assumption|lia|].
     rewrite app_length. cbn [length].
@@ -76,14 +76,14 @@ Proof.
     rewrite <- app_assoc. cbn [app]. rewrite upd_mid.
     rewrite app_nil_r. f_equal. cbn [length]. lia.
   - destruct U as [|u U']; [discriminate|]. cbn [length] in HU.
-    exists J1, U'. repeat split; [lia|lia|].
+    exists J1, U'. repeat split; [lia|lia|]. cbn [app].
     replace (J1 ++ M ++ u :: U' ++ R) with ((J1 ++ M) ++ u :: U' ++ R)
       by (rewrite <- app_assoc; reflexivity).
     replace (length J1 + length M)%nat with (length (J1 ++ M)) by (rewrite app_length; lia).
     rewrite upd_mid.
     f_equal.
-    + rewrite <- !app_assoc. cbn [app]. reflexivity.
-    + rewrite !app_length. cbn [length]. lia.
+    + nrm. reflexivity.
+    + len.
   - exists J1, U. repeat split; [lia|lia|]. rewrite app_nil_r. reflexivity.
 Qed.
 
@@ -95,7 +95,7 @@ Lemma fill_spec k : forall J1 M U R,
    (length J1 + length M + length (dtors_of k))%nat).
 Proof.
   induction k as [oc od|oc od p IH]; intros J1 M U R HJ HU;
-    cbn [depth_of ctors_of dtors_of] in *.
+    cbn [depth_of ctors_of dtors_of c_ctor c_dtor] in *.
   - rewrite app_nil_r in HJ, HU.
     destruct (fill_iter (Base oc od) 0 J1 M U R 0 0) as (J1' & U' & HJ' & HU' & E);
       cbn [c_ctor c_dtor]; [lia|lia|].
@@ -135,18 +135,17 @@ Proof.
   destruct X as [|x [|? ?]]; cbn in HX; try lia.
   destruct Y as [|y [|? ?]]; cbn in HY; try lia.
   subst T2 T1. rewrite E1. cbn [app].
-  rewrite <- HJ1 at 1. rewrite upd_mid.
+  rewrite <- HJ1. rewrite upd_mid.
   pose proof (fill_spec k J1 [None] U [y] HJ1 HU) as F. cbn [app length] in F.
-  replace (nc + 1)%nat with (length J1 + 1)%nat by lia.
-  rewrite <- HJ1 at 2. rewrite F.
+  rewrite F.
   replace (map Some (rev (ctors_of k)) ++ None :: map Some (dtors_of k) ++ [y])
     with ((map Some (rev (ctors_of k)) ++ None :: map Some (dtors_of k)) ++ [y])
     by (rewrite <- app_assoc; reflexivity).
   replace (length J1 + 1 + length (dtors_of k))%nat
     with (length (map Some (rev (ctors_of k)) ++ None :: map Some (dtors_of k)))
-    by (rewrite app_length; cbn [length]; rewrite !map_length, rev_length; fold nc; lia).
+    by (unfold nc in HJ1; len).
   rewrite upd_mid. rewrite <- app_assoc. cbn [app].
-  f_equal. lia.
+  f_equal. unfold nc in HJ1. lia.
 Qed.
 
 Theorem ctor_order junk k : run_constructors (class_initialize junk k) = rev (ctors_of k).
